@@ -59,6 +59,10 @@ func TestC10_Regress(t *testing.T) {
 			`[{"action":"ietf-json-patch","patches":[{"op":"copy","from":"/o","path":"/o/y"}]}]`},
 		{"F11a copy into own child through an alias", `{"o":{"y":"1"}}`,
 			`[{"action":"ietf-json-patch","patches":[{"op":"copy","from":"/o","path":"/p"},{"op":"copy","from":"/p","path":"/o/z"}]}]`},
+		{"F19 follow-up: the path of a move is evaluated after the value was removed (array elements shift)", `{"name":["e0",1,["a",2],{"in":"arr"}]}`,
+			`[{"action":"ietf-json-patch","patches":[{"op":"move","from":"/name/0","path":"/name/2/name"}]}]`},
+		{"F19 follow-up: move within an array to a later index", `{"sh":["x",["a"],{"k":"v"}]}`,
+			`[{"action":"ietf-json-patch","patches":[{"op":"move","from":"/sh/0","path":"/sh/1/moved"},{"op":"move","from":"/sh/1/k","path":"/sh/2"}]}]`},
 		{"F11c edit of a copy leaves the source alone", `{"o":{"y":"1"}}`,
 			`[{"action":"ietf-json-patch","patches":[{"op":"copy","from":"/o","path":"/p"},{"op":"add","path":"/p/z","value":2}]}]`},
 	}
